@@ -26,6 +26,8 @@ type caseSpec struct {
 	// SlowStartLogMs > 0: the caller's log sink takes that long to record "Started process [pid]"; the stop is
 	// requested DelayMs after the sink has been handed that announcement (anchor "announced"), Start() still running.
 	SlowStartLogMs int `json:"slow_start_log_ms,omitempty"`
+	// DoubleStart: Start() (documented idempotent) is called by two goroutines at the same moment
+	DoubleStart bool `json:"start_called_twice_at_once,omitempty"`
 }
 
 func (c caseSpec) canonical() string {
@@ -35,6 +37,9 @@ func (c caseSpec) canonical() string {
 	}
 	if c.SlowStartLogMs > 0 {
 		s += fmt.Sprintf(" slow-start-log=%dms", c.SlowStartLogMs)
+	}
+	if c.DoubleStart {
+		s += " start-called-twice-at-once"
 	}
 	return s
 }
@@ -290,6 +295,19 @@ func genCases(r *vrun.Run) []caseSpec {
 		}
 		out = append(out, c)
 	}
+	// Start() called by two goroutines at the same moment, then stopped
+	for i, stop := range []string{"Restart", "Stop", "Cancel", "context-cancel", "Restart", "Restart", "Restart"} {
+		rng := r.Rand("c05-double-start", i)
+		class := []string{"fan", "chain", "single process", "background child holding pipes"}[(i+int(r.Seed))%4]
+		c := caseSpec{Index: len(out), Start: "Start", Stop: stop, ShapeClass: class, Anchor: "ready", DelayMs: 20 + rng.IntN(100), DoubleStart: true}
+		c.Shape = buildShape(class, rng, "Start")
+		c.ShapeText = c.Shape.String()
+		c.Pipes = "released by descendants"
+		if holdsPipes(c.Shape, true) {
+			c.Pipes = "held by descendant"
+		}
+		out = append(out, c)
+	}
 	// a longer history: Start, Restart, and only then the end of the context
 	for i, stop := range []string{"Restart+context-cancel", "Restart+Cancel"} {
 		rng := r.Rand("c05-restart-then", i)
@@ -326,7 +344,10 @@ func genCases(r *vrun.Run) []caseSpec {
 		if c := &out[len(out)-1]; c.Start == "Start" && c.Launcher == "" && (c.Stop == "Stop" || c.Stop == "Cancel" || c.Stop == "context-cancel") && rng.IntN(6) == 0 {
 			c.Anchor, c.DelayMs, c.SlowStartLogMs = "announced", rng.IntN(250), 300+rng.IntN(300)
 		}
-		if c := &out[len(out)-1]; c.Start == "Start" && c.Launcher == "" && c.SlowStartLogMs == 0 && c.Anchor == "ready" && c.Stop == "context-cancel" && rng.IntN(4) == 0 {
+		if c := &out[len(out)-1]; c.Start == "Start" && c.Launcher == "" && c.SlowStartLogMs == 0 && c.Anchor == "ready" && rng.IntN(6) == 0 {
+			c.DoubleStart = true
+		}
+		if c := &out[len(out)-1]; c.Start == "Start" && c.Launcher == "" && c.SlowStartLogMs == 0 && !c.DoubleStart && c.Anchor == "ready" && c.Stop == "context-cancel" && rng.IntN(4) == 0 {
 			c.Stop = []string{"Restart+context-cancel", "Restart+Cancel"}[rng.IntN(2)]
 		}
 	}
